@@ -27,6 +27,26 @@ let () = run_driver (function
        | CFalse -> "c=0"
        | CFuel -> "MODEL-CREATE-FUEL"
        | CUnmod -> "MODEL-CREATE-UNMODELLED")
+  | ["rwa"; n; e; freqs; syms] ->
+      let p = rans_precision_bits (z n) in
+      let fr = zlist freqs in
+      (match create_f64 p fr with
+       | COk probs ->
+         (match rans_encode_syms p (arr_of_list (with_cum probs (z "0"))) (zlist syms) (rans_write_init p) with
+          | Some st ->
+            let w = zlen (rans_block p st) in
+            let used = (match rans_area_used p st with Some u -> string_of_z u | None -> "MODEL-NO-VARINT") in
+            let ev = z e in
+            let (lo, hi) = ebits_window p probs fr in
+            let inside = int_of_z lo <= int_of_z ev && int_of_z ev <= int_of_z hi in
+            let verdict = if inside && ebits_check p probs fr ev then "ok"
+                          else Printf.sprintf "E-outside-[%s,%s]%s" (string_of_z lo) (string_of_z hi)
+                                 (if ebits_check p probs fr ev then "" else "-AND-TOO-SMALL-FOR-THE-THEOREM") in
+            Printf.sprintf "w=%s used=%s res=%s e=%s" (string_of_z w) used (string_of_z (rans_reserved ev)) verdict
+          | None -> "MODEL-ENCODE-NONE")
+       | CFalse -> "c=0"
+       | CFuel -> "MODEL-CREATE-FUEL"
+       | CUnmod -> "MODEL-CREATE-UNMODELLED")
   | ["rsc"; n; freqs] ->
       let p = rans_precision_bits (z n) in
       (match create_f64 p (zlist freqs) with
